@@ -99,6 +99,7 @@ func (o OneOfSchema[KeyType]) UnserializeType(data any) (result any, err error) 
 	if !discriminatorValue.IsValid() {
 		return result, &ConstraintError{
 			Message: fmt.Sprintf("Missing discriminator field '%s' in '%v'", o.DiscriminatorFieldNameValue, data),
+			Path:    []string{o.DiscriminatorFieldNameValue},
 		}
 	}
 	discriminator := discriminatorValue.Interface()
@@ -136,6 +137,7 @@ func (o OneOfSchema[KeyType]) UnserializeType(data any) (result any, err error) 
 				o.DiscriminatorFieldNameValue,
 				strings.Join(validDiscriminators, ", "),
 			),
+			Path: []string{o.DiscriminatorFieldNameValue},
 		}
 	}
 
@@ -265,6 +267,7 @@ func (o OneOfSchema[KeyType]) selectMember(data map[string]any) (KeyType, Object
 		return nilKey, nil, &ConstraintError{
 			Message: fmt.Sprintf(
 				"validation failed for OneOfSchema. Discriminator field '%s' missing", o.DiscriminatorFieldNameValue),
+			Path: []string{o.DiscriminatorFieldNameValue},
 		}
 	}
 	// Ensure it's the correct type
@@ -274,6 +277,7 @@ func (o OneOfSchema[KeyType]) selectMember(data map[string]any) (KeyType, Object
 			Message: fmt.Sprintf(
 				"validation failed for OneOfSchema. Discriminator field '%v' has invalid type '%T'. Expected %T",
 				o.DiscriminatorFieldNameValue, selectedTypeID, selectedTypeIDAsserted),
+			Path: []string{o.DiscriminatorFieldNameValue},
 		}
 	}
 	// Find the object that's associated with the selected type
@@ -283,6 +287,7 @@ func (o OneOfSchema[KeyType]) selectMember(data map[string]any) (KeyType, Object
 			Message: fmt.Sprintf(
 				"validation failed for OneOfSchema. Discriminator value '%v' is invalid. Expected one of: %v",
 				selectedTypeIDAsserted, o.getTypeValues()),
+			Path: []string{o.DiscriminatorFieldNameValue},
 		}
 	}
 	return selectedTypeIDAsserted, selectedSchema, nil
@@ -347,6 +352,7 @@ func (o OneOfSchema[KeyType]) getTypedDiscriminator(discriminator any) (KeyType,
 					o.DiscriminatorFieldNameValue,
 					typedDiscriminator,
 				),
+				Path:  []string{o.DiscriminatorFieldNameValue},
 				Cause: err,
 			}
 		}
@@ -361,6 +367,7 @@ func (o OneOfSchema[KeyType]) getTypedDiscriminator(discriminator any) (KeyType,
 					o.DiscriminatorFieldNameValue,
 					typedDiscriminator,
 				),
+				Path:  []string{o.DiscriminatorFieldNameValue},
 				Cause: err,
 			}
 		}
